@@ -107,6 +107,19 @@ for _pid, _mods in SRC_DIRECT.items():
         "Python objects is spelled over the model's records) and Model/PyRt.lean (forEach, host views, dict stores)")
 
 
+# raw-array world (harness/pysrc_obs.py -> Generated/SrcObs.lean): layout, getters, vectorize, observe, observations
+SRC_RAW = {
+    "C08": ["SrcObserve"],
+    "C09": ["SrcLayout", "SrcObserve"],
+}
+for _pid, _mods in SRC_RAW.items():
+    PROPS[_pid]["src"] = PROPS[_pid].get("src", []) + _mods
+    PROPS[_pid].setdefault("src_shared", [])
+    PROPS[_pid].setdefault("trusted_extra", []).append(
+        "source translator harness/pysrc_obs.py (raw-array world): NumPy primitives of Model/PyRtObs.lean (zeros, indexing, "
+        "slice read / assignment, argmax, shape, dict lookup and key iteration) and the keyword -> Mask field table KW_FIELD")
+
+
 def evaluations(r):
     return int(r.get("evaluations", r.get("transitions", 0) + r.get("walk_ops", 0)))
 
